@@ -421,6 +421,12 @@ func (mw *msgWriter) writePart(part *Part, charset Charset) {
 	contentTransferEnc := part.encoding.String()
 
 	if mw.depth == 0 {
+		if part.description != "" {
+			// written the same way multipart.Writer.CreatePart writes it for nested parts, so
+			// that the S/MIME pre-render of a single-part message matches the signed entity
+			mw.writeString(fmt.Sprintf("%s: %s%s", HeaderContentDescription,
+				mw.encoder.Encode(mw.charset.String(), part.description), SingleNewLine))
+		}
 		mw.writeHeader(HeaderContentTransferEnc, contentTransferEnc)
 		mw.writeHeader(HeaderContentType, contentType)
 		mw.writeString(SingleNewLine)
